@@ -25,7 +25,7 @@ def main():
     if src.count(old) != count:
         print("MUT: pattern occurs %d times (expected %d)" % (src.count(old), count)); return 3
     open(fn, "w").write(src.replace(old, new))
-    env = dict(os.environ, VERIF_REPO=WT, PYTHONPATH=WT + ":/verif", PYTHONDONTWRITEBYTECODE="1")
+    env = dict(os.environ, VERIF_REPO=WT, PYTHONPATH=WT + ":/verif", PYTHONDONTWRITEBYTECODE="1", VERIF_EVIDENCE_DIR="/tmp/verif-evidence-scratch")
     cmd = ["/venv/bin/python", "-m", "vp.runner", prop, "--tier", "quick"] + (["--only", only] if only else [])
     import signal
     proc = subprocess.Popen(cmd, env=env, cwd="/verif", stdout=subprocess.PIPE, stderr=subprocess.STDOUT, text=True,
